@@ -72,9 +72,18 @@ def gen_setters(rng, pool, none_prob=0.2):
     return ops
 
 
-def gen_history(rng, pool, with_restore=True, n_cycles=None):
+def gen_history(rng, pool, with_restore=True, n_cycles=None, norecalc=False, late_setters=False):
     ops = gen_setters(rng, pool)
     ops += [('B',)] * int(rng.choice([1, 1, 2]))
+    if late_setters and rng.random() < 0.4:
+        # materials / attenuation set (again) AFTER the bake, then (optionally saved and) baked again
+        if rng.random() < 0.5:
+            ops.append(('A', 'a%d' % int(rng.integers(0, 2))))
+        else:
+            ops.append(('S', list(range(W)), 'm%d' % int(rng.integers(0, 4))))
+        if with_restore and rng.random() < 0.6:
+            ops.append(('R', str(rng.choice(['dict', 'file']))))
+        ops.append(('B',))
     n_cycles = int(rng.integers(1, 4)) if n_cycles is None else n_cycles
     for _ in range(n_cycles):
         src = 's%d' % int(rng.integers(0, 3))
@@ -88,6 +97,13 @@ def gen_history(rng, pool, with_restore=True, n_cycles=None):
             for _ in range(int(rng.choice([1, 1, 2]))):
                 p = 'p%d' % int(rng.integers(0, 3))
                 ops.append(('X', p, 1))
+        if norecalc and rng.random() < 0.4:
+            # ask again with other parameters but WITHOUT recalculate: the histogram is kept
+            last = [o for o in ops if o[0] == 'X'][-1][1]
+            other = [q for q in ('p0', 'p1', 'p2') if q != last]
+            ops.append(('X', str(rng.choice(other)), 0))
+            if with_restore and rng.random() < 0.6:
+                ops.append(('R', str(rng.choice(['dict', 'file']))))
     if with_restore:
         for _ in range(int(rng.integers(0, 3))):
             ops.insert(int(rng.integers(0, len(ops) + 1)), ('R', str(rng.choice(['dict', 'file']))))
@@ -189,6 +205,12 @@ class OpFailed(Exception):
 def run_real(ops, pool, tmpdir, inputs_log=None):
     r = scenes.build_fast(pool.sides, pool.patch)
     snaps = [snapshot(r)]
+
+    def counts(obj):
+        d = obj._brdf_outgoing_directions
+        n_out = 1 if d is None else next((c.csize for c in d if c is not None), 1)
+        return (n_out, 1 if obj._frequencies is None else int(np.size(obj._frequencies)))
+    at_bake = None
     for k, op in enumerate(ops):
         try:
             r = apply_op(r, op, pool, tmpdir, inputs_log)
@@ -196,7 +218,11 @@ def run_real(ops, pool, tmpdir, inputs_log=None):
             err = OpFailed(k, op, e)
             walls_set = set(w for o in ops[:k] if o[0] == 'S' for w in o[1])
             err.partial_walls = 0 < len(walls_set) < W
+            # a setter since the last bake changed the number of bands / outgoing directions
+            err.stale_baked = at_bake is not None and counts(r) != at_bake
             raise err
+        if op[0] == 'B':
+            at_bake = counts(r)
         snaps.append(snapshot(r))
     return r, snaps
 
